@@ -159,6 +159,7 @@ def generate(run_seed: int, tier: str = 'quick', stream: str = 'seq') -> dict:
         'SAVE': rng.uniform(0.3, 1.5),
         'RELOAD': rng.uniform(0.3, 1.5),
         'DELETE': rng.uniform(0.1, 1.0),
+        'RESAVE_FAULT': rng.uniform(0.2, 1.2) if wf else 0,
     }
     n_ops = rng.randint(4, 25 if tier == 'quick' else 40)
     ops = []
@@ -230,6 +231,19 @@ def generate(run_seed: int, tier: str = 'quick', stream: str = 'seq') -> dict:
             saves += 1
             if f and f['kind'] == 'crash_write':
                 ops.append({'op': 'RESTART'})
+        elif kind == 'RESAVE_FAULT':
+            # overwrite an existing, complete save with a changed object and fail in the middle of the write:
+            # afterwards the file must hold the old object, the new one, or be unreadable - never a mixture
+            slot, src = rng.randrange(4), rng.randrange(8)
+            last_save.update(slot=slot, src=src)
+            ops.append({'op': 'SAVE', 'src': src, 'slot': slot, 'derive': None, 'fault': None})
+            fk = rng.pick(wf)
+            ops.append({'op': 'SAVE', 'src': src, 'slot': slot, 'derive': rng.pick(['flip_inplace', 'flip_inplace', 'extend_inplace', None]),
+                        'fault': {'kind': fk, 'kf': round(rng.uniform(0.05, 0.95), 4)}})
+            saves += 2
+            if fk == 'crash_write':
+                ops.append({'op': 'RESTART'})
+            ops.append({'op': 'RELOAD', 'slot': slot, 'fault': None})
         elif kind == 'RELOAD':
             if saves:
                 ops.append({'op': 'RELOAD', 'slot': last_save['slot'] if rng.chance(0.5) else rng.randrange(4), 'fault': gen_fault(rf)})
